@@ -2,6 +2,7 @@ package c19
 
 import (
 	"fmt"
+	"strconv"
 	"strings"
 	"sync"
 	"testing"
@@ -21,6 +22,118 @@ type Step struct {
 	// header_substr: the arguments (one or two integers, negative ones count from the end of the value) of the
 	// substr() modifier of each extracted variable; empty = the fixed pair substr(6), substr(2,5).
 	Substr [][]int `json:"substr,omitempty"`
+	// xpath: the expressions of the var/xpath mapping; empty = the fixed //div[@class='data']
+	XPath []XExpr `json:"xpath,omitempty"`
+}
+
+// XExpr is one generated XPath 1.0 expression over catalogue pages (catalogPage) and what kind of thing it is.
+type XExpr struct {
+	Expr string `json:"expr"`
+	// plain: node-set without a comparison; nodeset_numeric: node-set whose predicate compares an attribute with a
+	// number (an XPath engine evaluates such a predicate node by node, while the result is being walked);
+	// nodeset_string: node-set whose predicate applies string functions to the attribute;
+	// scalar: number / boolean / string result (count(), boolean(), top-level comparison, sum(), ...)
+	Kind string `json:"kind"`
+}
+
+// what a well-behaved target puts into the catalogue: numbers only
+var goodPrices = []string{"120", "12.5", "-30", "250"}
+
+// catalogPage is an HTML page with one list item per price: <li class='item' data-id='aK' data-price='...'>.
+func catalogPage(prices []string) string {
+	var sb strings.Builder
+	sb.WriteString("<html><head><title>key</title></head><body><div class='data'>d</div><ul id='u1'>")
+	for i, p := range prices {
+		if p == "-" {
+			fmt.Fprintf(&sb, "<li class='item' data-id='a%d'>item %d</li>", i, i)
+		} else {
+			fmt.Fprintf(&sb, "<li class='item' data-id='a%d' data-price='%s'>item %d</li>", i, p, i)
+		}
+	}
+	sb.WriteString("</ul></body></html>")
+	return sb.String()
+}
+
+func numericPrice(p string) bool {
+	_, err := strconv.ParseFloat(p, 64)
+	return p == "-" || err == nil
+}
+
+// genPrices: the data-price values of a page served by a misbehaving target: numbers mixed with what shops really
+// print where a number is expected
+func genPrices(t *rapid.T) []string {
+	n := rapid.IntRange(1, 5).Draw(t, "items")
+	ps := make([]string, 0, n)
+	for i := 0; i < n; i++ {
+		if rapid.IntRange(0, 2).Draw(t, "numeric") != 0 {
+			ps = append(ps, rapid.SampledFrom([]string{"120", "99", "7", "12.5", "-30", "250", "0", "1e3"}).Draw(t, "price"))
+		} else {
+			ps = append(ps, rapid.SampledFrom([]string{"N/A", "", "1 200", "12,5", "abc", "-", " 7", "$5", "â", "12.5.1"}).Draw(t, "price"))
+		}
+	}
+	return ps
+}
+
+func genCmp(t *rapid.T) string { return genCmpOf(t, "@data-price") }
+
+func genCmpOf(t *rapid.T, attr string) string {
+	n := rapid.SampledFrom([]string{"0", "10", "100", "99.5", "250", "1000"}).Draw(t, "number")
+	op := rapid.SampledFrom([]string{">", "<", ">=", "<=", "=", "!="}).Draw(t, "op")
+	if rapid.Bool().Draw(t, "numberFirst") {
+		return n + " " + op + " " + attr
+	}
+	return attr + " " + op + " " + n
+}
+
+// genXExpr draws an expression of one of the kinds; all of them are valid XPath 1.0 that evaluates without an
+// error on a catalogue whose prices are numbers (arithmetic on node-sets and round(), which the engine used by
+// pandora does not implement, are left out).
+func genXExpr(t *rapid.T) XExpr {
+	sel := rapid.SampledFrom([]string{"/@data-id", "", "/@data-price"}).Draw(t, "selected")
+	switch rapid.IntRange(0, 7).Draw(t, "xkind") {
+	case 0:
+		return XExpr{rapid.SampledFrom([]string{"//div[@class='data']", "//li/@data-id", "//li[@class='item']", "//li[position() < 3]/@data-id",
+			"(//li)[last()]/@data-id", "//ul/@id", "//title"}).Draw(t, "plain"), "plain"}
+	case 1, 2:
+		return XExpr{"//li[" + genCmp(t) + "]" + sel, "nodeset_numeric"}
+	case 3:
+		pos := rapid.SampledFrom([]string{"[1]", "[last()]", "[position() < 3]"}).Draw(t, "position")
+		return XExpr{"//li[" + genCmp(t) + "]" + pos + sel, "nodeset_numeric"}
+	case 4:
+		switch rapid.IntRange(0, 3).Draw(t, "combined") {
+		case 0:
+			return XExpr{"//li[not(" + genCmp(t) + ")]" + sel, "nodeset_numeric"}
+		case 1:
+			return XExpr{"//li[" + genCmp(t) + " or " + genCmp(t) + "]" + sel, "nodeset_numeric"}
+		case 2:
+			return XExpr{"//li[" + genCmp(t) + " and " + genCmp(t) + "]" + sel, "nodeset_numeric"}
+		default:
+			return XExpr{"//li[@class='item'][" + genCmp(t) + "]" + sel, "nodeset_numeric"}
+		}
+	case 5:
+		if rapid.Bool().Draw(t, "outer") {
+			return XExpr{"//ul[" + genCmpOf(t, "li/@data-price") + "]/@id", "nodeset_numeric"}
+		}
+		return XExpr{"//li[count(../li[" + genCmp(t) + "]) > 0]" + sel, "nodeset_numeric"}
+	case 6:
+		switch rapid.IntRange(0, 6).Draw(t, "scalar") {
+		case 0, 1:
+			return XExpr{"count(//li[" + genCmp(t) + "])", "scalar"}
+		case 2:
+			return XExpr{"boolean(//li[" + genCmp(t) + "])", "scalar"}
+		case 3:
+			return XExpr{genCmpOf(t, "//li/@data-price"), "scalar"}
+		case 4:
+			return XExpr{"sum(//li/@data-price)", "scalar"}
+		case 5:
+			return XExpr{"number(//li[1]/@data-price)", "scalar"}
+		default:
+			return XExpr{"concat(//li[1]/@data-id, '-', string-length(//li[2]/@data-price))", "scalar"}
+		}
+	default:
+		return XExpr{"//li[" + rapid.SampledFrom([]string{"contains(@data-price, '1')", "starts-with(@data-price, '-')", "string-length(@data-price) > 2",
+			"substring(@data-price, 1, 2) = '12'", "normalize-space(@data-price) = '120'", "number(@data-price) > 100", "floor(@data-price) = 120"}).Draw(t, "strPred") + "]" + sel, "nodeset_string"}
+	}
 }
 
 const goodToken = "abcdefghijklmnop" // X-Token of a well-behaved response (Beh.resp)
@@ -50,6 +163,11 @@ func genStep(t *rapid.T) Step {
 			s.Substr = append(s.Substr, args)
 		}
 	}
+	if s.Post == "xpath" && rapid.IntRange(0, 3).Draw(t, "xpathGen") != 0 {
+		for m, k := 0, rapid.IntRange(1, 2).Draw(t, "xpathVars"); m < k; m++ {
+			s.XPath = append(s.XPath, genXExpr(t))
+		}
+	}
 	return s
 }
 
@@ -77,7 +195,11 @@ func genScen(t *rapid.T) ScenCase {
 		s := Shot{MisStep: -1}
 		if j < n-1 && rapid.IntRange(0, 2).Draw(t, "mis") != 0 {
 			s.MisStep = rapid.IntRange(0, k-1).Draw(t, "misStep")
-			s.Beh = genScenBeh(t)
+			if c.Steps[s.MisStep].Post == "xpath" && rapid.IntRange(0, 2).Draw(t, "page") != 0 {
+				s.Beh = Beh{Kind: "ok", Prices: genPrices(t)} // a catalogue page for the step that reads one
+			} else {
+				s.Beh = genScenBeh(t)
+			}
 		}
 		c.Shots = append(c.Shots, s)
 	}
@@ -86,7 +208,7 @@ func genScen(t *rapid.T) ScenCase {
 
 // responses the extractors cannot digest, on top of the transport-level misbehaviour
 func genScenBeh(t *rapid.T) Beh {
-	switch rapid.IntRange(0, 11).Draw(t, "scenBeh") {
+	switch rapid.IntRange(0, 12).Draw(t, "scenBeh") {
 	case 0:
 		return Beh{Kind: "ok", Body: "{this is not json"}
 	case 1:
@@ -99,6 +221,8 @@ func genScenBeh(t *rapid.T) Beh {
 		return Beh{Kind: "ok", Body: `{"other": 1}`, Header: map[string]string{"Content-Type": "text/plain"}}
 	case 5:
 		return Beh{Kind: "ok", Body: "null"}
+	case 12:
+		return Beh{Kind: "ok", Prices: genPrices(t)}
 	case 6, 7:
 		// a header value of any length up to a bit more than the usual one
 		return Beh{Kind: "ok", Header: map[string]string{"X-Token": rapid.StringOfN(rapid.RuneFrom([]rune("abcXYZ019-_")), 0, 20, -1).Draw(t, "token")}}
@@ -116,7 +240,14 @@ func scenarioYAML(c ScenCase) string {
 		case "jsonpath":
 			sb.WriteString("    postprocessors:\n      - type: var/jsonpath\n        mapping:\n          v: $.key\n          w: $.items[1]\n")
 		case "xpath":
-			sb.WriteString("    postprocessors:\n      - type: var/xpath\n        mapping:\n          d: //div[@class='data']\n")
+			if len(s.XPath) == 0 {
+				sb.WriteString("    postprocessors:\n      - type: var/xpath\n        mapping:\n          d: //div[@class='data']\n")
+				break
+			}
+			sb.WriteString("    postprocessors:\n      - type: var/xpath\n        mapping:\n")
+			for m, x := range s.XPath {
+				fmt.Fprintf(&sb, "          x%d: %s\n", m, yamlQuote(x.Expr))
+			}
 		case "header":
 			sb.WriteString("    postprocessors:\n      - type: var/header\n        mapping:\n          ct: Content-Type|upper\n          tok: X-Token\n")
 		case "header_substr":
@@ -146,6 +277,16 @@ func scenarioYAML(c ScenCase) string {
 	return sb.String()
 }
 
+func yamlQuote(s string) string { return `"` + strings.NewReplacer(`\`, `\\`, `"`, `\"`).Replace(s) + `"` }
+
+// the well-behaved answer to step i: for a step that reads a catalogue with generated expressions, a catalogue of numbers
+func goodBehFor(st Step) Beh {
+	if st.Post == "xpath" && len(st.XPath) > 0 {
+		return Beh{Kind: "ok", Prices: goodPrices}
+	}
+	return Beh{Kind: "ok"}
+}
+
 func checkScen(c ScenCase, o *vf.Obs) error {
 	tg, mu := target.Shared(false)
 	mu.Lock()
@@ -166,6 +307,9 @@ func checkScen(c ScenCase, o *vf.Obs) error {
 		smu.Unlock()
 		if cur >= 0 && cur < len(c.Shots) && c.Shots[cur].MisStep == step {
 			return c.Shots[cur].Beh.resp()
+		}
+		if step >= 0 && step < len(c.Steps) {
+			return goodBehFor(c.Steps[step]).resp()
 		}
 		return Beh{Kind: "ok"}.resp()
 	})
@@ -228,6 +372,7 @@ func checkScen(c ScenCase, o *vf.Obs) error {
 		}
 		mis++
 		o.Class("mis_" + s.Beh.Kind + "_on_" + c.Steps[s.MisStep].Post)
+		xpathClasses(c.Steps[s.MisStep], s.Beh, o)
 		if len(g) < s.MisStep+1 {
 			return fmt.Errorf("invocation %d: steps before the misbehaving step %d all got good responses, but only %d samples were left\n%s", j, s.MisStep, len(g), data)
 		}
@@ -240,6 +385,9 @@ func checkScen(c ScenCase, o *vf.Obs) error {
 	anyNeg, anyBeyond := false, false
 	for i, st := range c.Steps {
 		o.Class("post_" + st.Post)
+		for _, x := range st.XPath {
+			o.Class("xpath_expr_" + x.Kind)
+		}
 		neg, beyond := substrClasses(c, i)
 		anyNeg, anyBeyond = anyNeg || neg, anyBeyond || beyond
 	}
@@ -249,6 +397,29 @@ func checkScen(c ScenCase, o *vf.Obs) error {
 		o.NonTrivial()
 	}
 	return nil
+}
+
+// xpathClasses labels what a var/xpath step with generated expressions was given to read.
+func xpathClasses(st Step, b Beh, o *vf.Obs) {
+	if st.Post != "xpath" || len(st.XPath) == 0 || b.Kind != "ok" || len(b.Prices) == 0 {
+		return
+	}
+	nonNumeric := false
+	for _, p := range b.Prices {
+		nonNumeric = nonNumeric || !numericPrice(p)
+	}
+	seen := map[string]bool{}
+	for _, x := range st.XPath {
+		if seen[x.Kind] {
+			continue
+		}
+		seen[x.Kind] = true
+		if nonNumeric {
+			o.Class("xpath_" + x.Kind + "_on_non_numeric_page")
+		} else {
+			o.Class("xpath_" + x.Kind + "_on_numeric_page")
+		}
+	}
 }
 
 // substrClasses: does step i extract with a negative substr() index, and was one of them applied to a (non-empty)
